@@ -14,7 +14,6 @@ from harness.common import cbool, clist, cnat, cbytes
 
 PID = "C16"
 KEY_GAP = "remove-service-leaves-handle-gap"
-KEY_U128INT = "uuid128-from-int-not-importable"
 MAX_REPLAYS = 8
 
 PERM_WORDS = {"read": "PRead", "write": "PWrite", "write_without_response": "PWriteNoResp",
@@ -42,8 +41,7 @@ def uuid_packed(u):
 def uuid_model(u):
     """(kind, value) the model sees for a UUID spec."""
     p = uuid_packed(u)
-    kind = "U16" if len(p) == 2 else ("U128int" if u["t"] == "i128" else "U128")
-    return kind, int.from_bytes(p, "little")
+    return ("U16" if len(p) == 2 else "U128"), int.from_bytes(p, "little")
 
 
 def uuid_text(u):
@@ -51,7 +49,8 @@ def uuid_text(u):
     if t == "i16":
         return "%04X" % int(u["v"])
     if t == "i128":
-        return "%032X" % int(u["v"])
+        h = "%032x" % int(u["v"])
+        return "-".join((h[:8], h[8:12], h[12:16], h[16:20], h[20:]))
     if t in ("s4", "s36"):
         return u["s"]
     p = bytes.fromhex(u["h"])
@@ -70,14 +69,8 @@ def c_uuid(u):
 
 
 def obs_uuid(o):
-    """UUID observed on the implementation ({"k","v","s"}) -> Coq literal; kind by text form."""
-    s = o["s"]
-    kind = "U16" if len(s) == 4 else ("U128" if len(s) == 36 else "U128int")
-    if o["k"] == 16:
-        kind = "U16"
-    elif kind == "U16":
-        kind = "U128"
-    return c_uuid_kv(kind, int(o["v"]))
+    """UUID observed on the implementation ({"k","v","s"}) -> Coq literal (kind by packed length)."""
+    return c_uuid_kv("U16" if o["k"] == 16 else "U128", int(o["v"]))
 
 
 def rand_uuid16(rng, base, taken=None):
@@ -98,7 +91,7 @@ def rand_uuid16(rng, base, taken=None):
 def rand_uuid128(rng, allow_int=False):
     raw = bytes(rng.randrange(256) for _ in range(16))
     f = rng.randrange(4)
-    if allow_int and f == 0:
+    if allow_int and f <= 1:
         return {"t": "i128", "v": str(int.from_bytes(raw, "big") | (1 << 100))}
     if f <= 1:
         h = raw.hex()
@@ -183,7 +176,7 @@ def rand_cdef(rng, state):
         state["big_left"] -= 1
     sec = rand_security(rng)
     nd = rng.choice([0, 0, 0, 1, 1, 2, 3])
-    return {"uuid": rand_uuid(rng, 0x2a00, 0.25, allow_int=state["allow_int"] and rng.random() < 0.2),
+    return {"uuid": rand_uuid(rng, 0x2a00, 0.25, allow_int=state["allow_int"] and rng.random() < 0.6),
             "value": value, "properties": props, "permissions": perms,
             "notify": rng.random() < 0.2, "indicate": rng.random() < 0.15,
             "description": rng.choice(TEXTS) if rng.random() < 0.3 else None,
@@ -193,7 +186,7 @@ def rand_cdef(rng, state):
 
 def rand_sdef(rng, state, name, kinds=("primary", "primary", "primary", "secondary", "standard")):
     kind = rng.choice(kinds)
-    u = rand_uuid(rng, 0x1800, 0.3, taken=state["svc_uuids"], allow_int=state["allow_int"] and rng.random() < 0.3)
+    u = rand_uuid(rng, 0x1800, 0.3, taken=state["svc_uuids"], allow_int=state["allow_int"] and rng.random() < 0.8)
     state["svc_uuids"].add(uuid_model(u))
     nc = rng.choice([0, 1, 1, 2, 2, 3]) if kind != "secondary" else rng.choice([0, 0, 1, 2])
     incs = []
@@ -675,18 +668,6 @@ def check_export(res):
     return bad
 
 
-def has_int128_text(res):
-    def walk(x):
-        if isinstance(x, dict):
-            if set(x) == {"k", "v", "s"}:
-                return x["k"] == 129
-            return any(walk(v) for v in x.values())
-        if isinstance(x, list):
-            return any(walk(v) for v in x)
-        return False
-    return walk(res.get("export", []))
-
-
 def oracle(ctx, case, res, tag):
     """Returns number of (non-known) violations recorded."""
     n = 0
@@ -743,9 +724,8 @@ def oracle(ctx, case, res, tag):
         return n
     re_ = res["reimport"]
     if "exc" in re_:
-        key = KEY_U128INT if (re_["exc"] == "TypeError" and has_int128_text(res)) else None
-        n += 1 if ctx.violation("Profile(from_json=export) raised %s (%s)" % (re_["exc"], re_.get("msg", "")), small, key=key,
-                                expected="import succeeds and exports identically", observed=re_) else 0
+        n += ctx.violation("Profile(from_json=export) raised %s (%s)" % (re_["exc"], re_.get("msg", "")), small,
+                           expected="import succeeds and exports identically", observed=re_)
     elif not re_["same"]:
         n += ctx.violation("export(import(export p)) differs from export p", small,
                            expected=res.get("export_text", "")[:1500], observed=re_["export"])
@@ -781,13 +761,13 @@ def run(ctx):
         "Coq 8.16.1 kernel + vm_compute (no native_compute); theorems closed under the global context (Print Assumptions checked each run)",
         "hand-written model coq/theories/C16/Model.v tied to whad/ble/profile/{__init__,service,characteristic,attribute}.py and SecurityAccess by the correspondence of this run (sampled)",
         "the Python dict __attr_db is modelled as a finite map (association list sorted by key); dict iteration order is not modelled: observables are compared sorted by handle, char(uuid)/service(uuid) with several matches are checked for membership",
-        "UUID text <-> UUID object parsing (UUID.__init__/__repr__) is not modelled: a UUID is (kind, value); the exact text identity of export(import(export p)) is checked by the oracle on the implementation",
+        "UUID text <-> UUID object parsing (UUID.__init__/__repr__) is not modelled: a UUID is (kind, value) and UUID(str(u)) is taken to give u back for the 4-character and 8-4-4-4-12 texts every constructor form produces; the re-import and the exact text identity of export(import(export p)) are checked by the oracle on the implementation for every constructor form (int16, str4, bytes2, str36, bytes16, int128)",
         "remove_service locates the service by UUID, the model by identity: equal when the service UUIDs of a profile are pairwise distinct (generator guarantees it)",
         "UTF-8 encode/decode of user descriptions (str -> bytes -> str) taken as identity on text built from str",
     ]
     ctx.assumptions = ["start handle >= 1", "service UUIDs of one profile pairwise distinct",
                        "operations address services/characteristics that exist (index in range)",
-                       "JSON identity: no UUID built from a 128-bit int (known finding), handles non-zero (implied by start >= 1)"]
+                       "JSON identity: handles non-zero (implied by start >= 1)"]
     proofs_ok, detail = ctx.check_proofs(lib_targets=["theories/Lib/Bytes.vo"])
     ctx.log("proofs:", proofs_ok, detail.splitlines()[0][:300])
 
@@ -800,7 +780,7 @@ def run(ctx):
         cases.append(c); tags.append("corpus:" + fn)
     n_main = 2500 if ctx.thorough else 260
     for i in range(n_main):
-        cases.append(gen_case(rng, allow_int=(i % 23 == 7), allow_remove=(i % 3 != 0), big=1 if i % 4 == 0 else 0))
+        cases.append(gen_case(rng, allow_int=(i % 5 == 2), allow_remove=(i % 3 != 0), big=1 if i % 4 == 0 else 0))
         tags.append("gen")
     # sequences that stress update/add interplay (the historical off-by-one) and shrinking
     for i in range(300 if ctx.thorough else 40):
@@ -934,7 +914,7 @@ def fill_coverage(ctx, cases, results, tags):
         "model_branches": {"add_service(handle==0 -> setter)": opk.get("add", 0) + sum(len(c["services"]) for c in cases),
                            "update_at": opk.get("update", 0) + opk.get("addchar", 0) + opk.get("delchar", 0),
                            "remove_at": opk.get("remove", 0),
-                           "import TypeError (32-hex UUID)": sum(1 for _c, r in okc if r["reimport"].get("exc") == "TypeError")},
+                           "uuid built from a 128-bit int": sum(1 for c, _r in okc if '"i128"' in json.dumps(c["services"]) + json.dumps(c["ops"]))},
         "uncovered_branches": ["remove_at: KeyError (unreachable under the invariant)", "import: OutOfModel (zero handles never exported)",
                                "update_at/remove_at with an index out of range (not generated)"],
     }
